@@ -141,6 +141,9 @@ DevExplainsRt(fid, e, broken) ==
     [] fid = "F08j" ->  \* archive index accepted with a footer hash shorter than the footer's own size field says
          /\ e.fmt = "archive_index" /\ broken \subseteq {"E2", "E3", "E4"} /\ broken # {}
          /\ HasF(e, "hash_bytes") /\ Small(e.h["hash_bytes"]) # 8
+    [] fid = "F08k" ->  \* ESpec zlib parameters with an empty level slot: the writer drops the slot
+         /\ e.fmt = "espec" /\ broken \subseteq {"E2", "E3", "E4"} /\ broken # {}
+         /\ HasF(e, "emptyslot") /\ Small(e.h["emptyslot"]) = 1
     [] OTHER -> FALSE
 
 RtOrder == <<"F08a", "F08b", "F08c", "F08d", "F08e", "F08f", "F08g", "F08h", "F08i", "F08j", "F08k", "F08l">>
